@@ -1,5 +1,6 @@
 import AioModel.Wire
 import AioModel.C18
+import AioModel.C18Ws
 /-! Driver commands of property C18.
 `run k=v … @t:ev;ev @t:ev …` → one line of canonical observables (see harness/c18.py). -/
 namespace Aio.Driver.C18
@@ -20,6 +21,7 @@ def parseKV (cfg : Cfg × Bool) (tok : String) : Option (Cfg × Bool) :=
   | ["wstall", v] => some ({ cfg.1 with wstall := parseBool v }, cfg.2)
   | ["think", v] => v.toNat?.map fun x => ({ cfg.1 with think := x }, cfg.2)
   | ["buf", v] => v.toNat?.map fun x => ({ cfg.1 with bufsize := x }, cfg.2)
+  | ["https", v] => some ({ cfg.1 with https := parseBool v }, cfg.2)
   | ["cd", v] => some ({ cfg.1 with closeDelim := parseBool v }, cfg.2)
   | ["co", v] => some (cfg.1, parseBool v)
   | _ => none
@@ -37,6 +39,7 @@ def parseEv (s : String) : Option Ev :=
   | "XL" => some .cancelLate
   | _ =>
     if s.startsWith "K" then (s.drop 1).toNat?.map Ev.connDone
+    else if s.startsWith "T" then (s.drop 1).toNat?.map Ev.tlsDone
     else if s.startsWith "B" then
       match ((s.drop 1).toString.splitOn ".").mapM (·.toNat?) with
       | some [n, hd, bb, eof] => some (.bytes { n := n, headDone := hd == 1, bodyBytes := bb, eof := eof == 1 })
@@ -82,6 +85,23 @@ def handle : List String → String
       let s := observe cfg (run cfg (init co) tl)
       render cfg s
     | _, _ => "bad-op"
+  | ["ws", kind, a1, a2, recv, tc, peer, cancel] =>
+    -- kind: default | obj <recv> <close> | float <close> -
+    let arg : Option WsArg :=
+      if kind == "default" then some .default
+      else if kind == "obj" then (do let r ← optNat a1; let c ← optNat a2; pure (.obj ⟨r, c⟩))
+      else if kind == "float" then a1.toNat?.map .legacy
+      else none
+    match arg, optNat recv, tc.toNat?, optNat peer, optNat cancel with
+    | some arg, some recv, some tc, some peer, some cancel =>
+      let w := effWs arg recv
+      let o := match wsClose w tc peer cancel with
+        | .closedOk t => s!"closed@{t} code=1000"
+        | .closedAbnormal t => s!"closed@{t} code=1006"
+        | .cancelled t => s!"E_CANCELLED@{t} code=-"
+        | .pending => "pending@-1 code=-"
+      s!"recv={showOptNat w.recv} close={showOptNat w.close} r={o}"
+    | _, _, _, _, _ => "bad-op"
   | ["ceil", kind, now, d] =>
     match now.toNat?, d.toNat? with
     | some now, some d =>
